@@ -314,3 +314,41 @@ func VH_C15_as() {
 	vAssert(!vPanics(func() { r.IsNil(); r.Value(); r.IsError(); r.Error() }), "plain-accessors-total")
 	vAssert(r.IsNil() == (v == nil), "IsNil-agrees")
 }
+
+// Bind is an accessor too: for a value of any type and a handful of destination types (among them
+// the pointee type of the pointer values of the catalogue) neither the result's nor the store's
+// Bind panics; what it returns is C16's business
+func VH_C15_bind() {
+	v, _ := vAnyOf("v")
+	dk := vChoice("dest", 6)
+	try := func(bind func(dest any) error) bool {
+		return vPanics(func() {
+			switch dk {
+			case 0:
+				var d int
+				bind(&d)
+			case 1:
+				var d string
+				bind(&d)
+			case 2:
+				var d map[string]any
+				bind(&d)
+			case 3:
+				var d any
+				bind(&d)
+			case 4:
+				var d vStructCmp
+				bind(&d)
+			default:
+				var d *int
+				bind(&d)
+			}
+		})
+	}
+	r := NewResult(v)
+	vAssert(!try(func(d any) error { return r.Bind(d) }), "result-bind-never-panics")
+	st := NewSharedStore()
+	st.Set("k", v)
+	vAssert(!try(func(d any) error { return st.Bind("k", d) }), "store-bind-never-panics")
+	vCover("bind-total")
+}
